@@ -43,11 +43,11 @@ end RenoVerif.Chain
 
 namespace RenoVerif.QN
 
-theorem Q2.ext' {x y : Q2} (h1 : x.a = y.a) (h2 : x.b = y.b) : x = y := by
+theorem Q2.ext2 {x y : Q2} (h1 : x.a = y.a) (h2 : x.b = y.b) : x = y := by
   cases x; cases y; simp_all
 
-theorem Q2.add_assoc' (x y z : Q2) : x + y + z = x + (y + z) := by
-  apply Q2.ext' <;> show _ + _ + _ = _ + (_ + _) <;> omega
+theorem Q2.add_assoc2 (x y z : Q2) : x + y + z = x + (y + z) := by
+  apply Q2.ext2 <;> show _ + _ + _ = _ + (_ + _) <;> omega
 
 /-- end of a path: the right index of its last entry -/
 def pathEnd : List (Nat × Nat × Nat) → Nat → Nat
@@ -64,7 +64,7 @@ theorem path_sum : ∀ (L : Labels) (sqs : List (List Q2)) (sups : List Support)
   | [q], [], [], [], l, x, _, _, hx => by
     simp only [List.head?_cons, Option.bind_some] at hx
     simp only [List.getLast?_singleton, Option.bind_some, pathEnd, pathSigma, hx]
-    congr 1; apply Q2.ext' <;> show _ = _ + (0 : Int) <;> omega
+    congr 1; apply Q2.ext2 <;> show _ = _ + (0 : Int) <;> omega
   | [q], [], [], _ :: _, _, _, _, hp, _ => by simp [isPath] at hp
   | [q], _ :: _, _, _, _, _, h, _, _ => by simp [checkSites] at h
   | [q], [], _ :: _, _, _, _, h, _, _ => by simp [checkSites] at h
@@ -90,7 +90,7 @@ theorem path_sum : ∀ (L : Labels) (sqs : List (List Q2)) (sups : List Support)
         have ih := path_sum (qR :: rest) sqs sups es e.2.2 y h.2 hrest (by simp [hy])
         simp only [pathEnd, pathSigma]
         have hg : sq.getD e.2.1 0 = sg := by simp [List.getD_eq_getElem?_getD, hs]
-        rw [hg, ← Q2.add_assoc', hok]
+        rw [hg, ← Q2.add_assoc2, hok]
         simpa using ih
 
 /-- accepted by `checkInv` ⇒ every closed path carries exactly `qntot` -/
@@ -104,7 +104,7 @@ theorem checkInv_sector (qn : Labels) (qnidx : Nat) (qntot : Q2) (sqs : List (Li
   rw [hn, hend] at this
   simp only [Option.bind_some, List.getElem?_cons_zero, Option.some.injEq] at this
   rw [this]
-  apply Q2.ext' <;> show _ = (0 : Int) + _ <;> omega
+  apply Q2.ext2 <;> show _ = (0 : Int) + _ <;> omega
 
 /-- the pinned `add` (defect D1) concatenated the UN-moved labels of its first operand: a
     concrete two-site witness (single-particle sector; operand centres 0 and 1) on which the stale
